@@ -33,7 +33,7 @@ def Pc.atBox : Pc → Bool
 
 /-- the fork has counted box `cur` and not yet advanced -/
 def Pc.postInc : Pc → Bool
-  | .bGet | .bRel | .adv => true
+  | .bCmp | .bGet | .bRel | .adv => true
   | _ => false
 
 /-- the fork is between calls or at the first test of a call -/
@@ -48,7 +48,7 @@ def Pc.notExc : Pc → Bool
 
 /-- the fork has settled what follows its box -/
 def Pc.seen : Pc → Bool
-  | .wRel | .bAcq | .bInc | .bGet | .bRel | .adv => true
+  | .wRel | .bAcq | .bInc | .bCmp | .bGet | .bRel | .adv => true
   | _ => false
 
 /-- shared counters agree (no box is half-way published) -/
